@@ -36,6 +36,8 @@ func init() {
 			"every such position is also the start of a burst of 3 failing RPCs, of an outage of the whole service (all later RPCs fail; any class and a transient class {UNAVAILABLE, DEADLINE_EXCEEDED, ABORTED, CANCELLED, RESOURCE_EXHAUSTED}), " +
 			"of an outage of that one method (transient class), and the moment the caller's context ends (deadline / cancellation: Done() closes and that RPC and all later ones answer the status a gRPC client makes from the context error). " +
 			"The slow batch repeats outage, method outage, burst and context end at the second poll of a version that never completes. " +
+			"Appended: every position is also the point BETWEEN two RPCs at which the caller's context ends (that RPC is still answered; Done() is closed when its answer arrives; later RPCs answer the context's status, or, with a client that does not look at the context, go on being answered); " +
+			"and a long-poll batch: 6 (thorough 12) concurrent scenarios over rotation and every bootstrap path in which the version answers PENDING_GENERATION to 2..3 (thorough 2..4) polls in a row and ENABLED afterwards, under a context that is alive; a watchdog ends that context only after the call has sent no RPC for 20 consecutive seconds (4 poll intervals), which together with not returning the enabled version is the stall verdict. " +
 			"Oracles: (budget) the model stops answering after 2*(versions+keys)+10*pages+100 RPCs, reaching that is non-termination (a call that goes on for 3*budget+1000 RPCs is aborted by the model); (wipeout) nil result => no ENABLED/DISABLED version in the ring, and a fault-free wipeout leaves none; " +
 			"(bootstrap) nil result => the returned name is an ENABLED version of the requested key, and when the key had an ENABLED version beforehand it is one of those (no pending one preferred, no new one minted); " +
 			"(rotation) nil result => the returned version is ENABLED; (destroy) nil result => the version is not ENABLED/DISABLED. " +
@@ -56,7 +58,8 @@ func init() {
 			"the 5-second poll interval of waitForKeyVersionGen is real time; the few scenarios that wait run concurrently in one case and nothing is decided by elapsed time",
 			"a faulted wipeout is only required to be honest (nil => complete), not complete",
 			"a fault sequence may fail every call from some point on (the quantifier's 'service errors at each call'); termination is then still demanded within the RPC budget, which leaves room for about a hundred retries but not for retrying as long as the service fails; what a call returns under an outage or an ended context is not judged beyond the nil-result rules",
-			"the caller's context is ended by the model at an RPC (a context.Context implementation without a timer), never by a clock",
+			"the caller's context is ended by the model at an RPC (a context.Context implementation without a timer), never by a clock; the one exception is the long-poll batch's watchdog, which ends the context of a call that has sent no RPC for 20 consecutive on-time one-second looks (a look that came late restarts the count) although its version is pending and no RPC failed",
+		"the repository polls a pending version at intervals of 5 s; a polling loop that stays silent for four such intervals while its context is alive has stopped polling (an interval of 20 s or more would be reported as a stall)",
 			"the property's per-call guarantees hold for every call whatever the same Manager/Signer or the same process did before or does at the same time (calls on different worlds only; two lifecycle calls never share a world, so no rule has to arbitrate between them); another actor changes a world only between two calls, never during one",
 			"creation of a fresh version when a key has neither an enabled nor a pending version is the repository's choice and is not judged; typed-nil signer options and an empty signature without checksum are outside the quantifier and only noted",
 		},
@@ -117,6 +120,10 @@ func planOf(mode string, at int, fc faultClass) faultPlan {
 	case "ctx-deadline":
 		p.Class, p.err = "DeadlineExceeded(context)", nil
 	case "ctx-cancel":
+		p.Class, p.err = "Canceled(context)", nil
+	case "ctx-deadline-after":
+		p.Class, p.err = "DeadlineExceeded(context)", nil
+	case "ctx-cancel-after", "ctx-cancel-unheeded":
 		p.Class, p.err = "Canceled(context)", nil
 	}
 	return p
@@ -337,6 +344,11 @@ func (sc *scen) callWith(fp faultPlan, setup func(m *model)) outcome {
 }
 
 func (sc *scen) callSetup(fp faultPlan, setup func(m *model), guard func(f func()) bool) outcome {
+	return sc.callBase(fp, setup, guard, nil)
+}
+
+// callBase is callSetup with the caller's context chosen by the workload (nil: Background).
+func (sc *scen) callBase(fp faultPlan, setup func(m *model), guard func(f func()) bool, parent context.Context) outcome {
 	m := sc.build()
 	m.plan = fp
 	if setup != nil {
@@ -354,6 +366,9 @@ func (sc *scen) callSetup(fp faultPlan, setup func(m *model), guard func(f func(
 		}
 	}
 	base := context.Background()
+	if parent != nil {
+		base = parent
+	}
 	if fp.endsCtx() {
 		m.endable = newEndableCtx(base)
 		base = m.endable
@@ -642,7 +657,7 @@ func lifecycleCase(c *core.Ctx, i int, sc *scen, r *rand.Rand, st *stats) {
 	for _, p := range faultPositions(t, c.N(120, 300), r) {
 		// one failing RPC (as before), then the same position as the start of a burst, of an outage
 		// of the whole service or of the one method, and as the moment the caller's context ends
-		plans := make([]faultPlan, 0, 8)
+		plans := make([]faultPlan, 0, 11)
 		for k := 0; k < per; k++ {
 			plans = append(plans, planOf("single", p, classes[(p+i+k*3)%len(classes)]))
 		}
@@ -652,7 +667,11 @@ func lifecycleCase(c *core.Ctx, i int, sc *scen, r *rand.Rand, st *stats) {
 			planOf("outage", p, trans[(p+i)%len(trans)]),
 			planOf("method-outage", p, trans[(p+i+2)%len(trans)]),
 			planOf("ctx-deadline", p, faultClass{}),
-			planOf("ctx-cancel", p, faultClass{}))
+			planOf("ctx-cancel", p, faultClass{}),
+			// appended in the fifth round: the context ends BETWEEN this RPC and the next one
+			planOf("ctx-deadline-after", p, faultClass{}),
+			planOf("ctx-cancel-after", p, faultClass{}),
+			planOf("ctx-cancel-unheeded", p, faultClass{}))
 		for _, fp := range plans {
 			g := fmt.Sprintf("%s fault=%s/%d", gname, fp, t)
 			of := sc.call(fp, guard(g))
@@ -1010,6 +1029,8 @@ func buildCases(thorough bool) []caseDef {
 	for _, l := range scriptLens {
 		cs = append(cs, caseDef{kind: "signscript", sigLen: l})
 	}
+	// versions that stay pending for two or more polls in a row (appended in the fifth round)
+	cs = append(cs, caseDef{kind: "slowpoll"})
 	return cs
 }
 
@@ -1019,6 +1040,7 @@ func run(c *core.Ctx) {
 	sst := &signStats{}
 	ast := newAudStats()
 	ss := &scriptStats{}
+	pst := &pollStats{}
 	ranLife, ranSign, ranSlow := false, false, false
 	for i, cd := range cases {
 		if !c.Mine(i) {
@@ -1055,6 +1077,10 @@ func run(c *core.Ctx) {
 			c.Begin(i, fmt.Sprintf("lockstep#%d: %d groups of 2-3 lifecycle calls in flight together", i, lifeGroupsPerCase), "Manager.*(in flight together)", nil)
 			lifeConcCase(c, i, r, ast)
 			ast.ran["lifeconc"] = true
+		case "slowpoll":
+			c.Begin(i, "long-poll batch: versions that answer PENDING_GENERATION to 2 or more polls in a row, then ENABLED; run concurrently", "Manager.*(polling)", nil)
+			slowPollBatch(c, i, r, pst)
+			ast.ran["slowpoll"] = true
 		case "slow":
 			c.Begin(i, "slow batch: scenarios that wait for the repository's 5 s poll, run concurrently", "Manager.*(polling)", nil)
 			slowBatch(c, i, st)
@@ -1084,7 +1110,7 @@ func run(c *core.Ctx) {
 	for _, e := range []string{eWipeout, eBootRoot, eBootSign, eRotate, eDestroy} {
 		c.Floor("faults reached in "+e, ranLife && st.faultsReached[e] > 0)
 	}
-	for _, mode := range []string{"single", "burst", "outage", "method-outage", "ctx-deadline", "ctx-cancel"} {
+	for _, mode := range []string{"single", "burst", "outage", "method-outage", "ctx-deadline", "ctx-cancel", "ctx-deadline-after", "ctx-cancel-after", "ctx-cancel-unheeded"} {
 		c.Floor("fault mode reached: "+mode, ranLife && st.modesReached[mode] > 0)
 	}
 	// audit dimensions
@@ -1094,6 +1120,7 @@ func run(c *core.Ctx) {
 	}
 	c.Floor("answer sequences: a signature was returned from an intact, confirmed answer", ast.ran["signscript"] && ss.returned > 0)
 	c.Floor("answer sequences: calls whose first answer was damaged or unconfirmed were refused", ast.ran["signscript"] && ss.refused > 0)
+	c.Floor("polling: a version that stayed pending for two or more polls in a row was polled until enabled and returned", ast.ran["slowpoll"] && pst.waited > 0)
 	c.Floor("sign: a genuine signature with a forced boundary checksum value was returned", ast.ran["forced"] && sst.forcedGenuine > 0)
 }
 
